@@ -242,7 +242,13 @@ def idx_scan_bound(repo, tier="quick"):
         for t, pol, g in tests:
             for tc in (t.values if isinstance(t, ast.BoolOp) and isinstance(t.op, ast.And) and pol else [t]):
                 c = fl.canon(tc, g)
-                if pol and c[0] == "cmp" and c[1] == ("<",) and c[2][0] == k and is_call(c[2][1], "len") and is_call(c[2][1], "len")[0][0] == pat:
+                if c[0] != "cmp" or len(c[1]) != 1 or len(c[2]) != 2:
+                    continue
+                op, (lhs, rhs) = c[1][0], c[2]
+                is_len = lambda t: bool(is_call(t, "len")) and is_call(t, "len")[0][0] == pat
+                # k < len(s), len(s) > k; under a negated test: not (k >= len(s)), not (len(s) <= k)
+                if (pol and ((op == "<" and lhs == k and is_len(rhs)) or (op == ">" and rhs == k and is_len(lhs)))) or \
+                        (not pol and ((op == ">=" and lhs == k and is_len(rhs)) or (op == "<=" and rhs == k and is_len(lhs)))):
                     guarded = True
         (obs.append(ob_ok(oid, fi, sub, construct="%s behind `%s < len(...)`" % (ast.unparse(sub), ast.unparse(sub.slice)), instance="bound:" + ast.unparse(sub.slice),
                           reason="the scan result is tested against the end of the string before it is used as an index")) if guarded else
